@@ -40,6 +40,12 @@ POOL = [
     ("h = #{ [x, x] }", ["h"]),
     ("h", []),
     ("Point[x: a, y: 3] =Point[x: 1, y: n], n", ["n"]),
+    # a line that reaches an import and is THEN rejected by the compiler, and later uses of the same module
+    ("[1, 2] %m.add undefined_name", []),
+    ("[3, %m.one] %m.add", []),
+    ("[4, 2] %num.add undefined_name", []),
+    ("[4, 2] %num.add", []),
+    ("'q = %m.nope, 1", []),
 ]
 MODULES = {"m": "[add: #['int, 'int] { __integer_add__ }, one: 1]"}
 
@@ -75,7 +81,10 @@ def canon_outcome(o):
 
 
 def histories_from_tlc(check, n, seed):
-    res = tlc("Repl", "MC_Repl.cfg", workers=1, timeout=300, simulate="num=%d" % (n * 2), depth=14, seed_=seed)
+    cfg = os.path.join(WORK, "MC_Repl_%d.cfg" % os.getpid())
+    open(cfg, "w").write(re.sub(r"NLines = \d+", "NLines = %d" % len(POOL), open(os.path.join(common.SPEC, "MC_Repl.cfg")).read()))
+    res = tlc("Repl", cfg, workers=1, timeout=300, simulate="num=%d" % (n * 2), depth=14, seed_=seed)
+    os.remove(cfg)
     check.add_tlc("gen:Repl(simulate)", res)
     hs = []
     for m in re.finditer(r'<<"CASE", "(\[[\d,]*\])">>', res.out):
@@ -83,6 +92,18 @@ def histories_from_tlc(check, n, seed):
         if h not in hs:
             hs.append(h)
     return hs[:n]
+
+
+def pairs_from_tlc(check):
+    cfg = os.path.join(WORK, "MC_Repl_pairs_%d.cfg" % os.getpid())
+    txt = open(os.path.join(common.SPEC, "MC_Repl.cfg")).read()
+    txt = re.sub(r"NLines = \d+", "NLines = %d" % len(POOL), txt)
+    txt = re.sub(r"MaxLen = \d+", "MaxLen = 2", txt)
+    open(cfg, "w").write(txt)
+    res = tlc("Repl", cfg, workers=4, timeout=300)
+    os.remove(cfg)
+    check.add_tlc("gen:Repl(pairs, exhaustive)", res)
+    return [h for h in (json.loads(m.group(1)) for m in re.finditer(r'<<"CASE", "(\[[\d,]*\])">>', res.out)) if len(h) == 2]
 
 
 def splits(prog):
@@ -104,10 +125,14 @@ def splits(prog):
 def run(prop, tier):
     check = Check(prop, tier)
     seed = common.seed()
-    n = 350 if tier == "quick" else 6000
+    n = 300 if tier == "quick" else 8000
     sessions = []   # (id, [(src, binds)])
     for hi, h in enumerate(histories_from_tlc(check, n, seed)):
         sessions.append(("h%d" % hi, [POOL[l - 1] for l in h]))
+    # every ordered PAIR of pool lines, enumerated exhaustively by TLC (pairwise interaction coverage:
+    # e.g. a rejected line that reached an import, followed by a line importing the same module)
+    for hi, h in enumerate(pairs_from_tlc(check)):
+        sessions.append(("pair%d" % hi, [POOL[l - 1] for l in h]))
     for pi, prog in enumerate(SPLIT_PROGRAMS):
         for si, sp in enumerate(splits(prog)):
             lines = []
@@ -123,6 +148,22 @@ def run(prop, tier):
         if line.startswith("{"):
             r = json.loads(line)
             repl[r["id"]] = r
+    # 1b. the same sessions with ONE rejected line removed: a rejected line must be invisible to every other line
+    freqs = []
+    for sid, lines in sessions:
+        r = repl.get(sid)
+        if r is None:
+            continue
+        for k, x in enumerate(r["lines"]):
+            if x["outcome"]["t"] == "rejected" and len(lines) > 1:
+                freqs.append({"id": "%s~%d" % (sid, k), "lines": [l[0] for i, l in enumerate(lines) if i != k], "modules": MODULES})
+    filtered = {}
+    for i in range(0, len(freqs), 400):
+        p2 = common.run_bin("replrun", stdin="\n".join(json.dumps(r) for r in freqs[i:i + 400]) + "\n", timeout=3000)
+        for line in p2.stdout.splitlines():
+            if line.startswith("{"):
+                r = json.loads(line)
+                filtered[r["id"]] = r
     # 2. the one-program reading: accepted lines so far joined by newlines
     progs, plan = [], {}
     for sid, lines in sessions:
@@ -178,7 +219,16 @@ def run(prop, tier):
                 o = outs.get("%s/&%s" % (sid, name))
                 if o:
                     probes.append({"name": name, "repl": canon(val), "prog": canon_outcome(o["outcomes"][0])})
-            rec = {"id": sid, "lines": recs, "probes": probes, "dead": dead, "crashes": r["crashes"]}
+            # for every rejected line k: the other lines here, and in the session without line k
+            removals = []
+            for k, l in enumerate(recs):
+                fid = "%s~%d" % (sid, k)
+                if l["repl"]["t"] == "rejected" and fid in filtered and len(r["lines"]) == len(lines):
+                    here = [[x["repl"], x["vars"]] for i, x in enumerate(recs) if i != k]
+                    there = [[canon_outcome(x["outcome"]), [[n_, t_, canon(v_)] for n_, t_, v_ in x["vars"]]]
+                             for x in filtered[fid]["lines"]]
+                    removals.append({"k": k + 1, "here": here, "there": there})
+            rec = {"id": sid, "lines": recs, "probes": probes, "dead": dead, "crashes": r["crashes"], "removals": removals}
             byid[sid] = rec
             f.write(json.dumps(rec) + "\n")
             nrec += 1
